@@ -260,8 +260,11 @@ func (e *Env) Apply(op Op) {
 		e.applyReopen(op)
 	case "gc":
 		d := time.Duration(0)
-		if op.N > 0 {
+		switch {
+		case op.N > 0:
 			d = time.Duration(op.N) * time.Hour
+		case op.N < 0:
+			d = time.Duration(-op.N) * time.Microsecond // "unused for a moment": unloads what the last steps did not touch
 		}
 		e.must("GC", e.L.GC(d))
 	case "sync":
